@@ -135,14 +135,14 @@ def run(ctx):
     from propka.coupled_groups import NCCG
     ctx.rule = ("cases = swap configurations (TLC-emitted) and runs with the analysis on/off; non-trivial = configuration "
                 "with a mutual determinant between the probed pair; run with >= 1 coupled pair")
-    r = tlc.run("MC_Coupling", "MC_Coupling.cfg", timeout=1800)
+    r = tlc.run("MC_Coupling", "MC_Coupling.cfg" if ctx.thorough() else "MC_Coupling_q.cfg", timeout=1800)
     ctx.add_tlc(r, "swap . swap = identity on multisets and sums; third group untouched")
     if not r.ok:
         raise tlc.TLCError("spec-level failure in MC_Coupling:\n" + r.stdout[-3000:])
     r = tlc.run("MC_Coupling", "Gen_Coupling.cfg" if ctx.thorough() else "Gen_Coupling_q.cfg", workers=1, timeout=1800)
     ctx.add_tlc(r, "swap configuration generator")
     bad = {}
-    stride = 1 if ctx.thorough() else 7
+    stride = 1 if ctx.thorough() else 29
     from propka.parameters import Parameters
     NCCG.parameters = NCCG.parameters or Parameters()
     for n, c in enumerate(r.printed):
@@ -191,11 +191,13 @@ def run(ctx):
             continue
         ctx.violation(k, f"configuration {c['lab']} {c['det']}: {msg}", {"config": c})
     # ---- T -----------------------------------------------------------------------------
-    cases = [("1HPX", C.test_pdb_text("1HPX"), []), ("1FTJ-Chain-A", C.test_pdb_text("1FTJ-Chain-A"), []),
-             ("3SGB-subset", C.test_pdb_text("3SGB-subset"), [])] + coupled_constructs(ctx)
+    cases = [("1HPX", C.test_pdb_text("1HPX"), []), ("3SGB-subset", C.test_pdb_text("3SGB-subset"), [])] + \
+        [c_ for c_ in coupled_constructs(ctx) if ctx.thorough() or not c_[0].startswith(("1FTJ+", "1HPX-asp25B-coupled", "1HPX-asp25B-at-chain-start ["))]
     if ctx.thorough():
-        cases += [("3SGB", C.test_pdb_text("3SGB"), []), ("4DFR", C.test_pdb_text("4DFR"), []),
+        cases += [("1FTJ-Chain-A", C.test_pdb_text("1FTJ-Chain-A"), []), ("3SGB", C.test_pdb_text("3SGB"), []), ("4DFR", C.test_pdb_text("4DFR"), []),
                   ("conf-alt-AB", C.test_pdb_text("conf-alt-AB"), [])]
+    # the same inputs with the display of alternative states requested: values may differ then, marks and stars may not
+    cases += [(c_[0] + " -d", c_[1], list(c_[2]) + ["-d"]) + tuple(c_[3:]) for c_ in cases[:1] + coupled_constructs(ctx)[:2]]
     recs, metas, runs = runbank.run_and_record(ctx, cases, keep_runs=True)
     ncoupled = 0
     for rec, m in zip(recs, metas):
@@ -216,7 +218,7 @@ def run(ctx):
     try:
         NCCG.do_prot_stat = False
         for (name, text, opts, *_x), ron in zip(cases, runs):
-            if ron is None or ron.exc is not None:
+            if ron is None or ron.exc is not None or "-d" in opts:
                 continue
             roff = runner.run(text, ["-q"] + list(opts))
             ctx.count()
